@@ -39,12 +39,47 @@ pub fn gen_k(seed: u64, k: usize, opts: &[String]) -> GenProg {
     gen_program(&mut rng, &cfg)
 }
 
+/// argument tuples used for the expectation files and the statistics
+pub fn arg_tuples(rng: &mut Rng, a: usize) -> Vec<Vec<i64>> {
+    let mut tuples: Vec<Vec<i64>> = vec![vec![0; a], (1..=a as i64).collect(), vec![-3; a], vec![100; a]];
+    tuples.push((0..a).map(|_| rng.i64_interesting()).collect());
+    tuples.push((0..a).map(|_| (rng.below(21) as i64) - 10).collect());
+    if a == 0 { tuples.truncate(1); }
+    tuples
+}
+
+fn x86_text(text: &str) -> Option<String> {
+    let text = text.to_string();
+    std::panic::catch_unwind(move || {
+        use printer::Print;
+        let checked = fun::parser::parse_module(&text).ok()?.check().ok()?;
+        let mut ax = core2axcut::program::shrink_prog(fun2core::program::compile_prog(checked).focus());
+        ax.linearize();
+        let code = axcut2backend::coder::compile::<axcut2x86_64::Backend, _, _, _>(ax);
+        Some(axcut2x86_64::into_routine::into_x86_64_routine(code).print_to_string(None))
+    }).ok().flatten()
+}
+
+/// `genfun <seed> <n> <outdir> [opts]`: p<k>.sc, p<k>.meta (arity, features), p<k>.expect (what the
+/// generator's own machine computes for some argument tuples); with option `asm` also p<k>.asm
 pub fn cmd_genfun(seed: u64, n: usize, outdir: &str, opts: &[String]) {
     std::fs::create_dir_all(outdir).expect("create outdir");
+    let asm = opts.iter().any(|o| o == "asm");
+    let mut arg_rng = Rng::new(seed ^ 0xA5A5);
     for k in 0..n {
         let p = gen_k(seed, k, opts);
         std::fs::write(format!("{outdir}/p{k}.sc"), &p.text).expect("write");
         std::fs::write(format!("{outdir}/p{k}.meta"), format!("main_arity {}\nfeatures {}\n", p.main_arity, p.features.join(" "))).expect("write");
+        let mut e = String::new();
+        for t in arg_tuples(&mut arg_rng, p.main_arity) {
+            let args: Vec<String> = t.iter().map(|x| x.to_string()).collect();
+            match crate::gen_fun_eval::run(&p.ast, &t, 2_000_000) {
+                crate::gen_fun_eval::Outcome::Done { stdout, code, steps } => e.push_str(&format!("args {} | code {} | steps {} | stdout {:?}\n", args.join(" "), code, steps, stdout)),
+                o => e.push_str(&format!("args {} | {:?}\n", args.join(" "), o)),
+            }
+        }
+        std::fs::write(format!("{outdir}/p{k}.expect"), e).expect("write");
+        if asm { if let Some(a) = x86_text(&p.text) { std::fs::write(format!("{outdir}/p{k}.asm"), a).expect("write"); } }
     }
     println!("wrote {n} programs to {outdir}");
 }
@@ -76,6 +111,7 @@ pub fn cmd_stats(seed: u64, n: usize, opts: &[String]) {
     use fun::syntax::declarations::Declaration;
     let show: usize = opts.iter().find_map(|o| o.strip_prefix("show=").and_then(|v| v.parse().ok())).unwrap_or(3);
     let save: Option<String> = opts.iter().find_map(|o| o.strip_prefix("save=").map(|s| s.to_string()));
+    let all_backends = opts.iter().any(|o| o == "backends=all");
     let (mut parse_ok, mut check_ok, mut pipe_ok) = (0usize, 0usize, 0usize);
     let mut rejected: Vec<(usize, String, String)> = Vec::new();
     let mut reject_classes: BTreeMap<String, usize> = BTreeMap::new();
@@ -90,20 +126,27 @@ pub fn cmd_stats(seed: u64, n: usize, opts: &[String]) {
     let mut distinct: HashSet<String> = HashSet::new();
     let mut arities = [0usize; 8];
     let mut steps: Vec<usize> = Vec::new();
+    let mut scope_depth: Vec<usize> = Vec::new();
     let mut eval_classes: BTreeMap<String, usize> = BTreeMap::new();
     let mut eval_bad: Vec<(usize, String, String)> = Vec::new();
     let max_steps: usize = opts.iter().find_map(|o| o.strip_prefix("max_steps=").and_then(|v| v.parse().ok())).unwrap_or(2_000_000);
     let mut arg_rng = Rng::new(seed ^ 0xA5A5);
     for k in 0..n {
         let p = gen_k(seed, k, opts);
+        // promises of the switches, checked by independent code
+        {
+            use crate::gen_fun_check as ck;
+            let mut v: Vec<String> = Vec::new();
+            if p.cfg.effect_sequenced { v.extend(ck::effect_sequenced_violations(&p.ast).into_iter().map(|x| format!("effect_sequenced: {x}"))); }
+            if !p.cfg.effects_everywhere { let n = ck::effects_in_argument_positions(&p.ast); if n > 0 { v.push(format!("{n} argument positions contain print/exit/goto/label although effects_everywhere is off")); } }
+            if !p.cfg.shadowing { v.extend(ck::binder_clashes(&p.ast).into_iter().map(|x| format!("binder reused although shadowing is off: {x}"))); }
+            scope_depth.push(ck::max_scope_depth(&p.ast));
+            if let Some(first) = v.first() { *eval_classes.entry("PROMISE BROKEN".into()).or_insert(0) += 1; eval_bad.push((k, first.clone(), p.text.clone())); }
+        }
         // the generator's own machine: termination, step counts, unsafe division
         {
             use crate::gen_fun_eval::{run, Outcome};
-            let a = p.main_arity;
-            let mut tuples: Vec<Vec<i64>> = vec![vec![0; a], (1..=a as i64).collect(), vec![-3; a], vec![100; a]];
-            tuples.push((0..a).map(|_| arg_rng.i64_interesting()).collect());
-            tuples.push((0..a).map(|_| (arg_rng.below(21) as i64) - 10).collect());
-            if a == 0 { tuples.truncate(1); }
+            let tuples = arg_tuples(&mut arg_rng, p.main_arity);
             let mut worst = 0;
             for t in &tuples {
                 match run(&p.ast, t, max_steps) {
@@ -145,6 +188,7 @@ pub fn cmd_stats(seed: u64, n: usize, opts: &[String]) {
         check_ok += 1;
         // the rest of the real pipeline, stage by stage
         let stage = std::cell::Cell::new("fun2core");
+        let other_backend_panics: std::cell::RefCell<Vec<String>> = std::cell::RefCell::new(Vec::new());
         let r = std::panic::catch_unwind(std::panic::AssertUnwindSafe(|| {
             let core = fun2core::program::compile_prog(checked);
             stage.set("focus");
@@ -153,6 +197,17 @@ pub fn cmd_stats(seed: u64, n: usize, opts: &[String]) {
             let mut ax = core2axcut::program::shrink_prog(focused);
             stage.set("linearize");
             ax.linearize();
+            if all_backends {
+                // the other two back ends, each on its own so that they do not mask the x86-64 result
+                for (name, f) in [("aarch64 codegen", (|a| { let _ = axcut2backend::coder::compile::<axcut2aarch64::Backend, _, _, _>(a); }) as fn(axcut::syntax::Prog)),
+                                  ("rv64 codegen", (|a| { let _ = axcut2backend::coder::compile::<axcut2rv64::Backend, _, _, _>(a); }) as fn(axcut::syntax::Prog))] {
+                    let a2 = ax.clone();
+                    if let Err(e) = std::panic::catch_unwind(std::panic::AssertUnwindSafe(|| f(a2))) {
+                        let m = panic_msg(e);
+                        other_backend_panics.borrow_mut().push(format!("{name}: {}", m.chars().take(80).collect::<String>()));
+                    }
+                }
+            }
             stage.set("x86_64 codegen");
             let code = axcut2backend::coder::compile::<axcut2x86_64::Backend, _, _, _>(ax);
             stage.set("x86_64 print");
@@ -161,6 +216,11 @@ pub fn cmd_stats(seed: u64, n: usize, opts: &[String]) {
             let s = axcut2x86_64::into_routine::into_x86_64_routine(code).print_to_string(None);
             (nargs, s.len())
         }));
+        for c in other_backend_panics.borrow().iter() {
+            let first = !panic_classes.contains_key(c);
+            *panic_classes.entry(c.clone()).or_insert(0) += 1;
+            if first { panics.push((k, format!("panic in {c}"), p.text.clone())); }
+        }
         match r {
             Ok((nargs, len)) => {
                 if nargs != p.main_arity { panics.push((k, format!("number_of_arguments {nargs} != main arity {}", p.main_arity), p.text.clone())); }
@@ -190,6 +250,7 @@ pub fn cmd_stats(seed: u64, n: usize, opts: &[String]) {
     dist("size (source lines)", &mut lines);
     dist("size (x86-64 assembly bytes)", &mut asm_sizes);
     dist("machine steps (worst of 6 argument tuples)", &mut steps);
+    dist("variables in scope at the deepest point", &mut scope_depth);
     println!("programs above 5000 steps: {}   above 100000: {}", steps.iter().filter(|s| **s > 5000).count(), steps.iter().filter(|s| **s > 100000).count());
     println!("machine outcomes: {eval_classes:?}");
     println!("main arity histogram 0..: {:?}", &arities[..6]);
@@ -214,4 +275,69 @@ pub fn cmd_stats(seed: u64, n: usize, opts: &[String]) {
             std::fs::write(format!("{dir}/s{seed}_p{k}.sc"), format!("// {}\n{text}", why.lines().next().unwrap_or("").replace('|', "/"))).ok();
         }
     }
+}
+
+/// `genfun-mutants <seed> <n>`: single ill-typed edits of generated programs against the real checker
+pub fn cmd_mutants(seed: u64, n: usize, opts: &[String]) {
+    let show: usize = opts.iter().find_map(|o| o.strip_prefix("show=").and_then(|v| v.parse().ok())).unwrap_or(2);
+    // class -> (mutants, parse errors, rejected by checker, accepted, panics), and diagnostics seen
+    let mut table: BTreeMap<String, [usize; 5]> = BTreeMap::new();
+    let mut diags: BTreeMap<String, BTreeMap<String, usize>> = BTreeMap::new();
+    let mut accepted: Vec<(usize, String, String)> = Vec::new();
+    for k in 0..n {
+        let p = gen_k(seed, k, opts);
+        let mut rng = Rng::new(seed.wrapping_mul(77).wrapping_add(k as u64));
+        for (class, text) in crate::gen_fun_mutate::mutate_ill_typed(&mut rng, &p) {
+            let row = table.entry(class.clone()).or_insert([0; 5]);
+            row[0] += 1;
+            let t2 = text.clone();
+            let r = std::panic::catch_unwind(move || fun::parser::parse_module(&t2).map(|m| m.check()));
+            match r {
+                Err(e) => { row[4] += 1; *diags.entry(class.clone()).or_default().entry(format!("PANIC {}", panic_msg(e))).or_insert(0) += 1; }
+                Ok(Err(e)) => { row[1] += 1; *diags.entry(class.clone()).or_default().entry(format!("parse: {e}").chars().take(50).collect()).or_insert(0) += 1; }
+                Ok(Ok(Err(e))) => {
+                    row[2] += 1;
+                    let d = format!("{e:?}");
+                    let name: String = d.split(|c: char| c == ' ' || c == '{').next().unwrap_or("").to_string();
+                    *diags.entry(class.clone()).or_default().entry(name).or_insert(0) += 1;
+                }
+                Ok(Ok(Ok(_))) => { row[3] += 1; accepted.push((k, class.clone(), text)); }
+            }
+        }
+    }
+    println!("genfun-mutants seed={seed} n={n}");
+    println!("{:32} {:>8} {:>8} {:>9} {:>9} {:>7}   diagnostics", "class", "mutants", "parseerr", "rejected", "ACCEPTED", "panics");
+    for (c, r) in &table {
+        let d: Vec<String> = diags.get(c).map(|m| m.iter().map(|(k, v)| format!("{k}:{v}")).collect()).unwrap_or_default();
+        println!("{:32} {:8} {:8} {:9} {:9} {:7}   {}", c, r[0], r[1], r[2], r[3], r[4], d.join(" "));
+    }
+    println!("--- first accepted mutants ({} total)", accepted.len());
+    for (k, class, text) in accepted.iter().take(show) { println!("### program {k}, class {class}\n{text}"); }
+}
+
+/// `genfun-reduce <seed> <k> <out.sc> <test command> [generator opts]`: regenerate program k of the
+/// run `<seed>` (same opts as for `genfun`), then shrink it while `<test command> <file>` exits 0.
+pub fn cmd_reduce(seed: u64, k: usize, out: &str, test_cmd: &str, opts: &[String]) {
+    let p = gen_k(seed, k, opts);
+    let tmp = format!("{out}.cand.sc");
+    let mut runs = 0usize;
+    // `args=1,2,3`: candidates must terminate normally on the generator's machine for these arguments
+    // (keeps the reducer from drifting to non-terminating or trapping programs)
+    let margs: Option<Vec<i64>> = opts.iter().find_map(|o| o.strip_prefix("args=").map(|v| v.split(',').filter(|x| !x.is_empty()).filter_map(|x| x.parse().ok()).collect()));
+    let mut test = |ast: &crate::gen_fun::Program, text: &str| -> bool {
+        if let Some(a) = &margs {
+            if !matches!(crate::gen_fun_eval::run(ast, a, 200_000), crate::gen_fun_eval::Outcome::Done { .. }) { return false; }
+        }
+        runs += 1;
+        std::fs::write(&tmp, text).expect("write candidate");
+        std::process::Command::new("sh").arg("-c").arg(format!("{test_cmd} {tmp}")).stdout(std::process::Stdio::null()).stderr(std::process::Stdio::null())
+            .status().map(|s| s.success()).unwrap_or(false)
+    };
+    if !test(&p.ast, &p.text) { eprintln!("the unreduced program is not interesting (test command fails on it)"); std::process::exit(1); }
+    let style = crate::gen_fun::PrintStyle { comments: false, variants: false, ..p.style.clone() };
+    let q = crate::gen_fun_reduce::reduce(p.ast.clone(), &style, &mut test, &mut |m| eprintln!("{m}"));
+    let text = crate::gen_fun::print_program(&q, &style);
+    std::fs::write(out, &text).expect("write");
+    std::fs::remove_file(&tmp).ok();
+    eprintln!("{runs} test runs; reduced program written to {out} ({} lines)", text.lines().count());
 }
